@@ -21,7 +21,19 @@ RULE = ("pairs of documents x array modes {position, value} x AoH modes {positio
         "unrelated pairs, record lists with identity keys (unique, duplicated, missing), type clashes, nulls, empty "
         "containers, non-hash members among records, (3) the corpus of past failures, (4) list pairs through "
         "Differ.synchronize_lists_by_value / synchronize_lods_by_key, (5) a sample through yaml-diff main() (exit status), "
-        "(6) the finite tables (mode names, action names, mode precedence) completely.  "
+        "(6) the finite tables (mode names, action names, mode precedence) completely, "
+        "(7) seeded documents holding 2-4 flat lists (scalars with repeats / records {n, id, v}) under the keys of one or two "
+        "mappings or at the root, siblings often equal-valued copies of one another, the left document derived list by list "
+        "(identical / reordered / element inserted, deleted, replaced), compared under a real INI file whose [rules] give "
+        "some of the lists their own mode (position / value; key / deep for record lists) and whose [keys] name identity keys, "
+        "x the command-line modes (also absent): the report / crash class against the per-path Lean model (fed with the "
+        "coordinates DifferConfig.prepare stored) and direct checks, the positional clauses judged wherever every list above "
+        "an entry is compared by position, clean <=> data-equal with the per-list modes; plus model-only cases: lists inside "
+        "lists with [rules] for elements, [keys] for single records, mode texts of the other kind of list / naming no mode, "
+        "rules on mappings and scalars, "
+        "(8) yaml-diff main() also under every output-selection option (-s/--same, -o/--onlysame, -q/--quiet, -v, and the "
+        "combinations the command accepts) and with such [rules]/[keys] files: exit 0 <=> report clean <=> data-equal, "
+        "whatever is displayed.  "
         "DIRECT checks on the real report, independent of the model: every entry true of the two documents and every "
         "leaf covered (positional modes), clean <=> data-equal (all modes), every left/right index of a synchronisation "
         "accounted for exactly once, exit status 0 <=> clean.  Correspondence: the report as a sorted list of "
@@ -266,16 +278,61 @@ def seg_canon(path):
     return out
 
 
-def impl_report(lj, rj, arr, aoh, limit_s=10.0):
+def coord_entries(rdoc, section):
+    """the NodeCoords -> text dictionary of DifferConfig as [[address in the right document, text]] (order kept);
+    None when an entry cannot be located (then the case is not compared with the model)"""
+    where = {}
+
+    def walk(x, addr):
+        if isinstance(x, dict):
+            where[id(x)] = addr
+            for k, v in x.items():
+                walk(v, addr + [["k", codec.key_to_json(k)]])
+        elif isinstance(x, list):
+            where[id(x)] = addr
+            for i, v in enumerate(x):
+                walk(v, addr + [["i", i]])
+        elif isinstance(x, (set, frozenset)) or type(x).__name__ == "CommentedSet":
+            where[id(x)] = addr
+
+    try:
+        walk(rdoc, [])
+        out = []
+        for nc, text in section.items():
+            if nc.parent is None:
+                out.append([[], str(text)])
+                continue
+            base = where.get(id(nc.parent))
+            if base is None:
+                return None
+            if isinstance(nc.parent, dict):
+                ref = ["k", codec.key_to_json(nc.parentref)]
+            elif isinstance(nc.parent, list):
+                ref = ["i", int(nc.parentref)]
+            else:
+                ref = ["m", codec.key_to_json(nc.parentref)]
+            out.append([base + [ref], str(text)])
+        return out
+    except (codec.OutOfModel, TypeError, ValueError):
+        return None
+
+
+def impl_report(lj, rj, arr, aoh, limit_s=10.0, config=None):
     """{"rep": sorted canonical entries} | {"crash": type, "site": ...} | {"timeout": 1}"""
     from yamlpath.differ import Differ, DifferConfig
     log = core.quiet_logger()
+    _ents = [None]
     old = signal.signal(signal.SIGVTALRM, _alarm)
     signal.setitimer(signal.ITIMER_VIRTUAL, limit_s)
     try:
-        cfg = DifferConfig(log, SimpleNamespace(arrays=arr, aoh=aoh))
+        cfg = DifferConfig(log, SimpleNamespace(arrays=arr, aoh=aoh, config=config))
         d = Differ(cfg, log, codec.json_to_ruamel(lj))
-        d.compare_to(codec.json_to_ruamel(rj))
+        rdoc = codec.json_to_ruamel(rj)
+        if config is not None:
+            # what prepare() stores does not depend on the comparison: read it first (also for runs that crash)
+            cfg.prepare(rdoc)
+            _ents[0] = {"rules": coord_entries(rdoc, cfg.rules), "keys": coord_entries(rdoc, cfg.keys)}
+        d.compare_to(rdoc)
         rep = []
         for e in d.get_report():
             act = e.action.name.lower()
@@ -283,11 +340,11 @@ def impl_report(lj, rj, arr, aoh, limit_s=10.0):
             rhs = None if act == "delete" else codec.node_to_json(e._rhs, anchors=False)
             rep.append([act, seg_canon(e.path), lhs, rhs])
         rep.sort(key=lambda x: json.dumps(x, sort_keys=True))
-        return {"rep": rep}
+        return {"rep": rep, "entries": _ents[0]}
     except Timeout:
         return {"timeout": 1}
     except Exception as e:  # noqa
-        return {"crash": type(e).__name__, "site": core.crash_site(e), "cls": core.exc_class(e)}
+        return {"crash": type(e).__name__, "site": core.crash_site(e), "cls": core.exc_class(e), "entries": _ents[0]}
     finally:
         signal.setitimer(signal.ITIMER_VIRTUAL, 0)
         signal.signal(signal.SIGVTALRM, old)
@@ -337,25 +394,37 @@ def ms_eq(xs, ys, eq):
     return not ys
 
 
-def data_eq(arr, aoh, a, b):
-    """equal as data: order of a synchronised sequence disregarded"""
+def list_mode_at(arr, aoh, rules, path, a, b):
+    """list_mode under a per-path [rules] section: `rules` maps a tuple of mapping keys (as text) to a
+    mode name; `path` is the tuple of mapping keys leading to this list, None below a list.  A rule takes
+    the place of BOTH command-line modes for its list (DifferConfig.array_diff_mode / aoh_diff_mode ask
+    the rule first)."""
+    r = rules.get(path) if (rules and path is not None) else None
+    if r:
+        return list_mode(r if r in ARR else arr, r if r in AOH else aoh, a, b)
+    return list_mode(arr or "position", aoh or "position", a, b)
+
+
+def data_eq(arr, aoh, a, b, rules=None, path=()):
+    """equal as data: order of a synchronised sequence disregarded.  `rules` / `path`: see list_mode_at."""
     ka = kind(a)
     if ka != kind(b):
         return False
     if ka == "scalar" or ka == "set":
         return a == b
     if ka == "map":
-        return set(a) == set(b) and all(data_eq(arr, aoh, a[k], b[k]) for k in a)
-    m = list_mode(arr, aoh, a, b)
+        return set(a) == set(b) and all(
+            data_eq(arr, aoh, a[k], b[k], rules, None if path is None else path + (str(k),)) for k in a)
+    m = list_mode_at(arr, aoh, rules, path, a, b) if rules else list_mode(arr, aoh, a, b)
     if m == "nothing":
         return True
     if m == "shallow":
         return a == b
     if m == "pos":
-        return len(a) == len(b) and all(data_eq(arr, aoh, x, y) for x, y in zip(a, b))
+        return len(a) == len(b) and all(data_eq(arr, aoh, x, y, rules, None) for x, y in zip(a, b))
     if m in ("value", "key"):
         return ms_eq(a, b, lambda x, y: x == y)
-    return ms_eq(a, b, lambda x, y: data_eq(arr, aoh, x, y))
+    return ms_eq(a, b, lambda x, y: data_eq(arr, aoh, x, y, rules, None))
 
 
 def identity_trouble(arr, aoh, a, b):
@@ -471,13 +540,40 @@ def set_insensitive(j):
     return j
 
 
-def direct_checks(lj, rj, arr, aoh, rep):
-    """violations of the property statement by the real report: list of (check, what)"""
+def zone_positional(segs, lp, rp, arr, aoh, rules):
+    """every list on the way to the path `segs` is compared by position (per-path rules considered):
+    the path then names the same place in both documents and the positional clauses apply to it"""
+    for n, s in enumerate(segs):
+        if s[0] != "i":
+            continue
+        pre = segs[:n]
+        try:
+            a, b = resolve(lp, pre), resolve(rp, pre)
+        except KeyError:
+            continue
+        if kind(a) == "seq" and kind(b) == "seq":
+            path = tuple(x[1] for x in pre) if all(x[0] == "s" for x in pre) else None
+            if list_mode_at(arr, aoh, rules, path, a, b) not in ("pos", "shallow", "nothing"):
+                return False
+    return True
+
+
+def direct_checks(lj, rj, arr, aoh, rep, rules=None):
+    """violations of the property statement by the real report: list of (check, what).
+    rules=None: the two modes hold for the whole document; otherwise `rules` ({key path: mode}, may be
+    empty) overrides them list by list and the positional clauses are judged wherever every list above the
+    entry / leaf is compared by position."""
     out = []
     lp, rp = codec.json_to_plain(lj), codec.json_to_plain(rj)
-    positional = (arr == "position" and aoh in ("position", "dpos"))
+    positional = (arr == "position" and aoh in ("position", "dpos")) or rules is not None
+
+    def judged(segs):
+        return rules is None or zone_positional(segs, lp, rp, arr, aoh, rules)
+
     if positional:
         for act, segs, lhs, rhs in rep:
+            if not judged(segs):
+                continue
             try:
                 if act in ("same", "change", "delete"):
                     v = resolve(lp, segs)
@@ -500,11 +596,11 @@ def direct_checks(lj, rj, arr, aoh, rep):
         rcov = [segs for act, segs, _l, _r in rep if act in ("same", "change", "add")]
         for side, doc, cov in (("left", lp, lcov), ("right", rp, rcov)):
             for leaf in leaves(doc):
-                if not any(leaf[:len(p)] == p for p in cov):
+                if judged(leaf) and not any(leaf[:len(p)] == p for p in cov):
                     out.append(("uncovered-leaf", "%s leaf %s is covered by no entry at its path or an ancestor" % (side, leaf)))
                     break
     is_clean = all(act == "same" for act, _s, _l, _r in rep)
-    eq = data_eq(arr, aoh, lp, rp)
+    eq = data_eq(arr, aoh, lp, rp, rules)
     if is_clean and not eq:
         out.append(("clean-but-different", "the report has no non-SAME entry but the documents differ as data"))
     if eq and not is_clean:
@@ -657,6 +753,428 @@ def sync_cases(cases):
     return n, per_sig(viol), per_sig(disag)
 
 
+# --------------------------------------------------------------------------- per-path [rules] / [keys]
+
+RULE_KEYS = [["p", "q", "r", "s"], ["t", "u", "w"]]          # disjoint key sets of the list-holding mappings
+RULE_SCALARS = [{"k": "int", "v": "0"}, {"k": "int", "v": "1"}, {"k": "int", "v": "2"}, {"k": "int", "v": "3"},
+                {"k": "str", "v": "a"}, {"k": "str", "v": "b"}, {"k": "str", "v": "ab"}, {"k": "bool", "v": True},
+                {"k": "float", "m": "15", "e": -1}]
+
+
+def rule_list(rng):
+    """a flat list: scalars (repeats likely) or records {n, id, v} whose `id` is the intended identity"""
+    if rng.random() < 0.55:
+        n = rng.choice([0, 1, 2, 2, 3, 3, 4])
+        return {"k": "seq", "i": [dict(rng.choice(RULE_SCALARS)) for _ in range(n)]}
+    n = rng.randint(1, 3)
+    ids = rng.sample(range(5), n) if rng.random() < 0.85 else [rng.randint(0, 1) for _ in range(n)]
+    n_first = rng.random() < 0.4
+    items = []
+    for i in ids:
+        es = [["n", {"k": "str", "v": rng.choice(["x", "y"])}], ["id", {"k": "int", "v": str(i)}]]
+        if not n_first:
+            es.reverse()
+        if rng.random() < 0.6:
+            es.append(["v", dict(rng.choice(RULE_SCALARS))])
+        items.append({"k": "map", "e": es})
+    return {"k": "seq", "i": items}
+
+
+def rule_group(rng, keys):
+    """a mapping of 2-4 lists; siblings are often equal-valued copies of one another"""
+    ks = rng.sample(keys, rng.randint(2, len(keys)))
+    base = rule_list(rng)
+    es = [[k, json.loads(json.dumps(base)) if rng.random() < 0.6 else rule_list(rng)] for k in ks]
+    if rng.random() < 0.3:
+        es.insert(rng.randint(0, len(es)), ["z", dict(rng.choice(RULE_SCALARS))])
+    return {"k": "map", "e": es}
+
+
+def rule_lists_of(j, pre=()):
+    """[(key path, list node)] of the lists reachable through mappings only"""
+    if j["k"] == "seq":
+        return [(pre, j)]
+    out = []
+    if j["k"] == "map":
+        for k, v in j["e"]:
+            out += rule_lists_of(v, pre + (str(k),))
+    return out
+
+
+def rule_edit_list(rng, lst):
+    xs = lst["i"]
+    op = rng.random()
+    if op < 0.45 and len(xs) > 1:
+        rng.shuffle(xs)
+    elif op < 0.6 and xs:
+        xs.pop(rng.randrange(len(xs)))
+    elif op < 0.75:
+        new = rule_list(rng)["i"]
+        same_kind = [x for x in new if not xs or (x["k"] == "map") == (xs[0]["k"] == "map")]
+        if same_kind:
+            xs.insert(rng.randint(0, len(xs)), same_kind[0])
+    elif xs:
+        i = rng.randrange(len(xs))
+        if xs[i]["k"] == "map":
+            e = rng.choice(xs[i]["e"])
+            e[1] = dict(rng.choice(RULE_SCALARS)) if e[0] == "v" else (
+                {"k": "str", "v": rng.choice(["x", "y", "w"])} if e[0] == "n" else {"k": "int", "v": str(rng.randint(0, 5))})
+        else:
+            xs[i] = dict(rng.choice(RULE_SCALARS))
+
+
+def rand_rule_case(rng):
+    """right document, left document derived from it list by list (identical / reordered / edited), a
+    [rules] entry for some of the lists (mode fitting the kind of list), [keys] for some record lists"""
+    r = rng.random()
+    if r < 0.12:
+        rj = rule_list(rng)
+    elif r < 0.5:
+        rj = rule_group(rng, RULE_KEYS[0])
+    else:
+        es = [["a", rule_group(rng, RULE_KEYS[0])]]
+        if rng.random() < 0.5:
+            es.append(["b", rule_group(rng, RULE_KEYS[1])])
+        if rng.random() < 0.3:
+            es.append(["c", dict(rng.choice(RULE_SCALARS))])
+        rj = {"k": "map", "e": es}
+    lj = json.loads(json.dumps(rj))
+    for _path, lst in rule_lists_of(lj):
+        x = rng.random()
+        if x < 0.3:
+            continue
+        for _ in range(1 if x < 0.8 else 2):
+            rule_edit_list(rng, lst)
+    if lj["k"] == "map" and rng.random() < 0.12:
+        tgt = rng.choice([lj] + [v for _k, v in lj["e"] if v["k"] == "map"])
+        if tgt["e"]:
+            if rng.random() < 0.5:
+                tgt["e"].pop(rng.randrange(len(tgt["e"])))
+            else:
+                rng.shuffle(tgt["e"])
+    left = dict(rule_lists_of(lj))
+    rules, keys = [], []
+    for path, lst in rule_lists_of(rj):
+        ex = lst["i"] or (left[path]["i"] if path in left else [])
+        is_aoh = bool(ex) and ex[0]["k"] == "map"
+        if rng.random() < 0.45:
+            rules.append([list(path), rng.choice(["position", "value", "key", "deep"] if is_aoh else ARR)])
+        if is_aoh and rng.random() < 0.4:
+            keys.append([list(path), "id" if rng.random() < 0.85 else "n"])
+    if not rules and not keys:
+        path = rng.choice(rule_lists_of(rj))[0]
+        rules.append([list(path), "value"])
+    return {"l": lj, "r": rj, "arr": rng.choice([None, None, "position", "value"]),
+            "aoh": rng.choice([None, None] + AOH), "rules": rules, "keys": keys}
+
+
+AOH_ONLY = ["dpos", "key", "deep"]
+
+
+def part_index(path, i):
+    """the path of element i of the list at `path` (as the parts of ini_text)"""
+    return list(path[:-1]) + ["%s[%d]" % (path[-1], i)]
+
+
+def rand_rule_case_model(rng):
+    """per-path configuration the direct checks do not cover - compared with the Lean model only (`model_only`):
+    lists inside lists with a [rules] entry for an element (the Processor counts from 0, the Differ hands down pos + 1),
+    [keys] entries for single records (`use_key`), [rules] texts that are modes of the other kind of list (`dpos`/`key`/`deep`
+    met by `array_diff_mode`: finding C06-K4) or no mode at all, empty lists, rules on mappings / scalars"""
+    c = rand_rule_case(rng)
+    c["model_only"] = True
+    rj, lj = c["r"], c["l"]
+    lists = [(p_, l_) for p_, l_ in rule_lists_of(rj) if p_]
+    x = rng.random()
+    if x < 0.3 and rj["k"] == "map":
+        # wrap some lists into a list of lists: {g: [L1, L2, L1']}, rules for elements
+        inner = [json.loads(json.dumps(rule_list(rng))) for _ in range(rng.randint(1, 3))]
+        if inner and rng.random() < 0.6:
+            inner.append(json.loads(json.dumps(inner[0])))
+        linner = json.loads(json.dumps(inner))
+        for l_ in linner:
+            if rng.random() < 0.6:
+                rule_edit_list(rng, l_)
+        if rng.random() < 0.3 and len(linner) > 1:
+            rng.shuffle(linner)
+        rj["e"].append(["g", {"k": "seq", "i": inner}])
+        lj["e"].append(["g", {"k": "seq", "i": linner}])
+        for i, l_ in enumerate(inner):
+            if rng.random() < 0.6:
+                is_aoh = bool(l_["i"]) and l_["i"][0]["k"] == "map"
+                c["rules"].append([["g[%d]" % i], rng.choice(["position", "value", "key", "deep"] if is_aoh else ARR)])
+        if rng.random() < 0.4:
+            c["rules"].append([["g"], rng.choice(ARR)])
+    elif x < 0.6:
+        # identity keys for single records
+        for p_, l_ in lists:
+            if l_["i"] and l_["i"][0]["k"] == "map":
+                for i in range(len(l_["i"])):
+                    if rng.random() < 0.4:
+                        c["keys"].append([part_index(p_, i), rng.choice(["id", "n", "v", "zz"])])
+                if not any(r_[0] == list(p_) for r_ in c["rules"]) and rng.random() < 0.7:
+                    c["rules"].append([list(p_), rng.choice(["key", "deep"])])
+    elif x < 0.85:
+        # texts of the other kind / no mode at all / upper case
+        for p_, l_ in lists:
+            if rng.random() < 0.5:
+                c["rules"] = [r_ for r_ in c["rules"] if r_[0] != list(p_)]
+                c["rules"].append([list(p_), rng.choice(AOH_ONLY + AOH_ONLY + ["VALUE", "Position", "bogus", "values"])])
+    else:
+        # rules / keys on nodes that are no lists
+        if rj["k"] == "map" and rj["e"]:
+            k = rng.choice(rj["e"])[0]
+            c["rules"].append([[str(k)], rng.choice(ARR + AOH_ONLY)])
+            c["keys"].append([[str(k)], rng.choice(["id", "n"])])
+    for sec in ("rules", "keys"):          # configparser refuses a repeated option
+        seen, out = set(), []
+        for p_, v in c[sec]:
+            if tuple(p_) not in seen:
+                seen.add(tuple(p_))
+                out.append([p_, v])
+        c[sec] = out
+    return c
+
+
+def rule_model_corpus():
+    P = plain_to_json
+    return [
+        # an entry for the second of two equal inner lists is found for the first (pos + 1 against the Processor's 0-based index)
+        {"l": P({"g": [[2, 1], [1, 2]]}), "r": P({"g": [[1, 2], [1, 2]]}), "arr": None, "aoh": None,
+         "rules": [[["g[1]"], "value"]], "keys": [], "model_only": True},
+        {"l": P({"g": [[2, 1], [1, 2]]}), "r": P({"g": [[1, 2], [1, 2]]}), "arr": None, "aoh": None,
+         "rules": [[["g[0]"], "value"]], "keys": [], "model_only": True},
+        # dpos as a rule for a record list (C06-K4)
+        {"l": P({"a": [{"id": 1}]}), "r": P({"a": [{"id": 1}]}), "arr": None, "aoh": None,
+         "rules": [[["a"], "dpos"]], "keys": [], "model_only": True},
+        {"l": P({"a": [1, 2]}), "r": P({"a": [2, 1]}), "arr": None, "aoh": None,
+         "rules": [[["a"], "key"]], "keys": [], "model_only": True},
+        # a record of its own identity key which the left record does not have
+        {"l": P({"a": [{"id": 1}, {"id": 2}]}), "r": P({"a": [{"id": 1, "n": "x"}, {"id": 2}]}), "arr": None, "aoh": "key",
+         "rules": [], "keys": [[["a[0]"], "n"]], "model_only": True},
+        {"l": P({"a": [{"id": 1}, {"id": 2}]}), "r": P({"a": [{"id": 1}, {"id": 2, "n": "x"}]}), "arr": None, "aoh": "key",
+         "rules": [], "keys": [[["a[1]"], "n"]], "model_only": True},
+        {"l": P({"a": [{"id": 1, "n": "y"}, {"id": 2, "n": "x"}]}), "r": P({"a": [{"id": 1, "n": "x"}, {"id": 2, "n": "y"}]}),
+         "arr": None, "aoh": "deep", "rules": [], "keys": [[["a[0]"], "n"], [["a"], "id"]], "model_only": True},
+    ]
+
+
+def ini_text(case):
+    def line(path, val):
+        return "/%s = %s\n" % ("/".join(path), val)
+    return ("[rules]\n" + "".join(line(p_, m) for p_, m in case.get("rules", [])) +
+            "[keys]\n" + "".join(line(p_, k) for p_, k in case.get("keys", [])))
+
+
+def rule_identity_trouble(arr, aoh, rules, keys, lp, rp):
+    """class of finding C06-K2 under per-path rules: a record list synchronised by identity key in which a
+    record lacks the key or two records share its value.  The key is the list's own [keys] entry or else
+    the first key of the first right-hand record; the code also hands a [keys] entry to every list that is
+    == to the entry's list, so those keys are candidates too (pessimistic)."""
+    keyed = []
+    for path, key in keys.items():
+        try:
+            node = rp
+            for k in path:
+                node = node[k]
+            keyed.append((node, key))
+        except (KeyError, TypeError, IndexError):
+            pass
+    found = []
+
+    def bad(xs, ka):
+        vals = []
+        for x in xs:
+            if not isinstance(x, dict) or ka not in x or kind(x[ka]) != "scalar" or any(x[ka] == v for v in vals):
+                return True
+            vals.append(x[ka])
+        return False
+
+    def walk(a, b, path):
+        if kind(a) == "map" and kind(b) == "map":
+            for k in a:
+                if k in b:
+                    walk(a[k], b[k], path + (str(k),))
+        elif kind(a) == "seq" and kind(b) == "seq":
+            if list_mode_at(arr, aoh, rules, path, a, b) in ("key", "deep"):
+                ex = b if b else a
+                cands = {keys[path] if path in keys else (list(ex[0])[0] if len(ex[0]) else "")}
+                cands |= {key for node, key in keyed if node == b}
+                if any(bad(a, ka) or bad(b, ka) for ka in cands):
+                    found.append(1)
+
+    walk(lp, rp, ())
+    return bool(found)
+
+
+def rule_capture_hazard(rules, keys, rp):
+    """class of finding C06-K3: DifferConfig recognises the node of a [rules]/[keys] entry by == of the node, == of its
+    parent and the reference - not by identity - so a list elsewhere in the right document that is equal, has an equal
+    parent and is held under the same reference (a key; the Differ counts list positions from 1) takes the entry's mode."""
+    entries = []
+    for path in list(rules) + list(keys):
+        try:
+            par, node = None, rp
+            for k in path:
+                par, node = node, [v for kk, v in node.items() if str(kk) == k][0]
+            entries.append((path, node, par, path[-1] if path else None))
+        except (KeyError, IndexError, AttributeError, TypeError):
+            pass
+    hit = []
+
+    def walk(x, par, ref, path):
+        if kind(x) == "seq":
+            for (epath, node, epar, eref) in entries:
+                if path != epath and x == node and par == epar and (str(ref) == str(eref) if ref is not None else eref is None):
+                    hit.append(1)
+            for i, v in enumerate(x):
+                walk(v, x, i + 1, None)
+        elif kind(x) == "map":
+            for k, v in x.items():
+                walk(v, x, k, None if path is None else path + (str(k),))
+
+    walk(rp, None, None, ())
+    return bool(hit)
+
+
+RULE_CORPUS = [
+    # the entry's list and an equal list below an equal mapping elsewhere (C06-K3)
+    {"l": {"a": {"p": [1, 2]}, "b": [{"p": [2, 1]}]}, "r": {"a": {"p": [1, 2]}, "b": [{"p": [1, 2]}]},
+     "arr": None, "aoh": "dpos", "rules": [[["a", "p"], "value"]], "keys": []},
+    {"l": {"a": {"p": [1, 2], "q": 0}, "b": {"p": [2, 1], "q": 0}}, "r": {"a": {"p": [1, 2], "q": 0}, "b": {"p": [1, 2], "q": 0}},
+     "arr": None, "aoh": None, "rules": [[["a", "p"], "value"]], "keys": []},
+    {"l": {"a": {"p": ["y", "x"]}, "b": {"p": ["x", "y"]}}, "r": {"a": {"p": ["x", "y"]}, "b": {"p": ["x", "y"]}},
+     "arr": "value", "aoh": None, "rules": [[["b", "p"], "position"]], "keys": []},
+    # the same shapes without the coincidence
+    {"l": {"a": {"p": [1, 2]}, "b": [{"p": [2, 1]}]}, "r": {"a": {"p": [1, 2]}, "b": [{"p": [1, 2], "q": 0}]},
+     "arr": None, "aoh": "dpos", "rules": [[["a", "p"], "value"]], "keys": []},
+    {"l": {"g": {"p": ["a", "b"], "s": ["a", "b"]}}, "r": {"g": {"p": ["b", "a"], "s": ["b", "a"]}},
+     "arr": None, "aoh": None, "rules": [[["g", "p"], "value"]], "keys": []},
+    {"l": {"u": [{"n": "x", "id": 1}, {"n": "x", "id": 2}], "w": [{"n": "x", "id": 1}, {"n": "x", "id": 2}]},
+     "r": {"u": [{"n": "x", "id": 2}, {"n": "x", "id": 1}], "w": [{"n": "x", "id": 2}, {"n": "x", "id": 1}]},
+     "arr": None, "aoh": None, "rules": [[["u"], "key"]], "keys": [[["u"], "id"]]},
+]
+
+
+def rule_corpus_cases():
+    return [dict(c, l=plain_to_json(c["l"]), r=plain_to_json(c["r"])) for c in RULE_CORPUS]
+
+
+def rule_case_parts(c):
+    rules = {tuple(p_): m for p_, m in c.get("rules", [])}
+    keys = {tuple(p_): k for p_, k in c.get("keys", [])}
+    return c["arr"] or "position", c["aoh"] or "position", rules, keys
+
+
+def rule_cases(cases):
+    """documents compared under a real INI file with [rules] / [keys]: the report (or crash class) against the
+    per-path Lean model (`C06.diffRules`, fed with the coordinates DifferConfig.prepare stored), and the direct
+    checks on the real report (not for `model_only` cases)"""
+    tmpd = tempfile.mkdtemp(prefix="ypv-c06-")
+    cf = os.path.join(tmpd, "rules.ini")
+    stats = {"n": 0, "hist": {}, "nontrivial": [], "out_of_model": 0}
+    viol, disag, pending = [], [], []
+
+    def count(k):
+        stats["hist"][k] = stats["hist"].get(k, 0) + 1
+
+    try:
+        for c in cases:
+            lj, rj = c["l"], c["r"]
+            arr, aoh, rules, keys = rule_case_parts(c)
+            with open(cf, "w") as fh:
+                fh.write(ini_text(c))
+            stats["n"] += 1
+            count("gen:rules")
+            sz = size(lj) + size(rj)
+            case = dict(c, ini=ini_text(c))
+            im = impl_report(lj, rj, c["arr"], c["aoh"], config=cf)
+            if "timeout" in im:
+                im = impl_report(lj, rj, c["arr"], c["aoh"], limit_s=120.0, config=cf)
+            if "timeout" in im:
+                viol.append((sz, "timeout", "compare_to did not return within 120 s (config file)", case))
+                continue
+            ents = im.get("entries")
+            if ents and ents["rules"] is not None and ents["keys"] is not None:
+                pending.append((sz, case, im, {"op": "C06.diffRules", "l": lj, "r": rj, "arr": arr, "aoh": aoh,
+                                               "rules": ents["rules"], "keys": ents["keys"]}))
+            else:
+                stats["out_of_model"] += 1
+            if "crash" in im:
+                texts = [str(m).upper() for m in rules.values()]
+                if im["crash"] == "NameError" and any(t not in [a.upper() for a in AOH] for t in texts):
+                    count("rules:text-names-no-mode")      # from_str raises NameError by contract: not judged
+                    im["unjudged"] = True
+                elif not pending or pending[-1][2] is not im:
+                    viol.append((sz, "crash:%s@%s" % (im["crash"], im["site"]),
+                                 "compare_to raised %s under a config file with [rules]/[keys]" % im["crash"], case))
+                continue
+            if c.get("model_only"):
+                count("gen:rules-model-only")
+                if im["rep"]:
+                    stats["nontrivial"].append(json.dumps([lj, rj, c["arr"], c["aoh"], c.get("rules"), c.get("keys")], sort_keys=True))
+                continue
+            rep = im["rep"]
+            lp, rp = codec.json_to_plain(lj), codec.json_to_plain(rj)
+            lists = dict((p_, 1) for p_, _l in rule_lists_of(rj))
+            eq_sib = len(set(json.dumps(l) for _p, l in rule_lists_of(rj))) < len(lists)
+            count("rules:equal-valued-sibling-lists" if eq_sib else "rules:distinct-lists")
+            for m in set(rules.values()):
+                count("rules:mode:" + m)
+            if keys:
+                count("rules:with-keys")
+            for e in rep:
+                count("action:" + e[0])
+            trouble = None
+            captured = rule_capture_hazard(rules, keys, rp)
+            for (chk_name, what) in direct_checks(lj, rj, arr, aoh, rep, rules=rules):
+                sig = chk_name
+                if captured:
+                    sig = "rule-capture:" + chk_name
+                elif chk_name in ("clean-but-different", "equal-but-reported"):
+                    if trouble is None:
+                        trouble = rule_identity_trouble(arr, aoh, rules, keys, lp, rp)
+                    if trouble:
+                        sig = "identity-key:" + chk_name
+                viol.append((sz, sig, what + " (arrays=%s, aoh=%s, [rules] %s, [keys] %s)" % (
+                    c["arr"], c["aoh"], c.get("rules"), c.get("keys")), dict(case, impl=rep)))
+            if rep:
+                stats["nontrivial"].append(json.dumps([lj, rj, c["arr"], c["aoh"], c.get("rules"), c.get("keys")], sort_keys=True))
+    finally:
+        shutil.rmtree(tmpd, ignore_errors=True)
+    # the per-path model
+    CR = {"NameError": "nameError", "KeyError": "keyError"}
+    if pending:
+        model = core.Driver().ask([q for (_s, _c, _i, q) in pending])
+        for (sz, case, im, q), mo in zip(pending, model):
+            count("rules:model-compared")
+            count("rules:entries:%d" % min(6, len(q["rules"]) + len(q["keys"])))
+            if "crash" in im:
+                count("rules:crash:" + im["crash"])
+                explained = mo.get("crash") == CR.get(im["crash"])
+                if not explained:
+                    disag.append((sz, "rules:crash", "compare_to raised %s, the model says %s" % (
+                        im["crash"], mo.get("crash", "a report")), dict(case, entries=q, model=mo)))
+                if not im.get("unjudged"):
+                    # a crash the per-path model predicts from the configuration is one of the recorded classes
+                    # (C06-K4 / C06-K5); any other crash keeps the plain signature
+                    viol.append((sz, "%s:%s@%s" % ("rules-crash" if explained else "crash", im["crash"], im["site"]),
+                                 "compare_to raised %s under a config file with [rules]/[keys]" % im["crash"], case))
+                continue
+            if "crash" in mo:
+                disag.append((sz, "rules:crash", "the model says %s, compare_to returned a report" % mo["crash"],
+                              dict(case, entries=q, impl=im["rep"])))
+                continue
+            rep, mrep = im["rep"], model_rep(mo)
+            if rep != mrep and ([[a, p_, set_insensitive(l) if l else l, set_insensitive(r) if r else r] for a, p_, l, r in rep]
+                                != [[a, p_, set_insensitive(l) if l else l, set_insensitive(r) if r else r] for a, p_, l, r in mrep]):
+                disag.append((sz, "rules:report", "report under [rules]/[keys] differs from the per-path model's",
+                              dict(case, entries=q, impl=rep, model=mrep)))
+    import hashlib
+    stats["nontrivial"] = [hashlib.blake2b(s_.encode(), digest_size=8).hexdigest() for s_ in stats["nontrivial"]]
+    return stats, per_sig(viol), per_sig(disag), []
+
+
 # --------------------------------------------------------------------------- CLI sample
 
 def dump_yaml(j, path):
@@ -666,17 +1184,29 @@ def dump_yaml(j, path):
         y.dump(codec.json_to_ruamel(j), fh)
 
 
-def cli_exit(lj, rj, arr, aoh, tmpd, dfl_in_config=False):
-    """exit status of yaml-diff main() run in-process on dumped files (None: could not run)"""
+# output selection: -s/--same and -o/--onlysame exclude each other; yaml-diff refuses -q/--quiet together with
+# either (validateargs); -v/--verbose only changes the layout of what is shown
+DISPLAY = [[], ["-s"], ["-o"], ["-q"], ["--same"], ["--onlysame"], ["--quiet"], ["-v"], ["-s", "-v"], ["-o", "-v"],
+           ["-o"], ["-q"]]
+
+
+def cli_exit(lj, rj, arr, aoh, tmpd, dfl_in_config=False, display=(), ini=None):
+    """exit status of yaml-diff main() run in-process on dumped files (None: could not run).
+    display: output-selection options; ini: text of a config file with [rules]/[keys] (then arr / aoh, when
+    not None, go on the command line)"""
     import io
     import contextlib
     from yamlpath.commands import yaml_diff
     lf, rf = os.path.join(tmpd, "l.yaml"), os.path.join(tmpd, "r.yaml")
     dump_yaml(lj, lf)
     dump_yaml(rj, rf)
-    argv = ["yaml-diff"]
-    if dfl_in_config:
-        cf = os.path.join(tmpd, "c.ini")
+    argv = ["yaml-diff"] + list(display)
+    cf = os.path.join(tmpd, "c.ini")
+    if ini is not None:
+        with open(cf, "w") as fh:
+            fh.write(ini)
+        argv += ["--config", cf] + (["--arrays", arr] if arr else []) + (["--aoh", aoh] if aoh else [])
+    elif dfl_in_config:
         with open(cf, "w") as fh:
             fh.write("[defaults]\narrays = %s\naoh = %s\n" % (arr, aoh))
         argv += ["--config", cf]
@@ -721,38 +1251,71 @@ def roundtrips(j, tmpd):
 
 
 def cli_cases(cases):
+    """cases: (lj, rj, arr, aoh, tag[, extra]); extra = {"display": [...options], "rules": [...], "keys": [...]}.
+    Whatever is selected for display, yaml-diff exits 0 exactly when the library report is clean and exactly
+    when the documents are equal as data."""
+    cases = [tuple(c) + ({},) if len(c) == 5 else tuple(c) for c in cases]
     drv = core.Driver()
-    model = drv.ask([{"op": "C06.diff", "l": l, "r": r, "arr": a, "aoh": h} for (l, r, a, h, _t) in cases])
+    model = drv.ask([{"op": "C06.diff", "l": l, "r": r, "arr": a or "position", "aoh": h or "position"}
+                     for (l, r, a, h, _t, _x) in cases])
     tmpd = tempfile.mkdtemp(prefix="ypv-c06-")
     viol, disag = [], []
     n = skipped = 0
     try:
-        for idx, ((lj, rj, arr, aoh, _t), mo) in enumerate(zip(cases, model)):
+        for idx, ((lj, rj, arr, aoh, _t, extra), mo) in enumerate(zip(cases, model)):
             # yaml-diff's loader turns a document that is just '' into "no document": not the Differ's business
             if lj == {"k": "str", "v": ""} or rj == {"k": "str", "v": ""} or not (
                     roundtrips(lj, tmpd) and roundtrips(rj, tmpd)):
                 skipped += 1
                 continue
-            im = impl_report(lj, rj, arr, aoh)
+            display = list(extra.get("display", []))
+            has_cfg = "rules" in extra or "keys" in extra
+            ini = ini_text(extra) if has_cfg else None
+            cf = None
+            if has_cfg:
+                cf = os.path.join(tmpd, "lib.ini")
+                with open(cf, "w") as fh:
+                    fh.write(ini)
+            im = impl_report(lj, rj, arr, aoh, config=cf)
             if "rep" not in im:
                 skipped += 1
                 continue
             n += 1
             lib_clean = all(e[0] == "same" for e in im["rep"])
-            code, out = cli_exit(lj, rj, arr, aoh, tmpd, dfl_in_config=(idx % 4 == 3))
-            case = {"l": lj, "r": rj, "arr": arr, "aoh": aoh, "cli": True, "config_defaults": idx % 4 == 3}
+            in_config = (idx % 4 == 3) and not has_cfg
+            code, out = cli_exit(lj, rj, arr, aoh, tmpd, dfl_in_config=in_config, display=display, ini=ini)
+            case = {"l": lj, "r": rj, "arr": arr, "aoh": aoh, "cli": True, "config_defaults": in_config}
+            if display:
+                case["display"] = display
+            if has_cfg:
+                case.update(rules=extra.get("rules", []), keys=extra.get("keys", []), ini=ini)
+            shown = " ".join(display) or "no display option"
             if code not in (0, 1):
-                viol.append((size(lj) + size(rj), "cli:%s" % code, "yaml-diff main() ended with %s" % (code,), case))
+                viol.append((size(lj) + size(rj), "cli:%s" % code, "yaml-diff main() (%s) ended with %s" % (shown, code), case))
                 continue
             if (code == 0) != lib_clean:
-                viol.append((size(lj) + size(rj), "exit-status", "yaml-diff exits %s but the library report is %s" % (
-                    code, "clean" if lib_clean else "not clean"), case))
+                viol.append((size(lj) + size(rj), "exit-status", "yaml-diff (%s) exits %s but the library report is %s" % (
+                    shown, code, "clean" if lib_clean else "not clean"), case))
+            # the clause itself, independent of the library report: exit 0 <=> equal as data (the classes of the
+            # known findings K1 / K2, where the report is not clean-iff-equal, left to the library-level cases)
+            lp, rp = codec.json_to_plain(lj), codec.json_to_plain(rj)
+            a_, h_, rules, keys = rule_case_parts({"arr": arr, "aoh": aoh, "rules": extra.get("rules", []),
+                                                   "keys": extra.get("keys", [])})
+            if has_cfg:
+                eq = data_eq(a_, h_, lp, rp, rules)
+                excused = rule_identity_trouble(a_, h_, rules, keys, lp, rp) or rule_capture_hazard(rules, keys, rp)
+            else:
+                eq = data_eq(a_, h_, lp, rp)
+                excused = void_clash(lp, rp) or identity_trouble(a_, h_, lp, rp)
+            if (code == 0) != eq and not excused:
+                viol.append((size(lj) + size(rj), "exit-status:data-equal", "yaml-diff (%s) exits %s but the documents are %s as data" % (
+                    shown, code, "equal" if eq else "different"), case))
             out = "\n".join(x for x in out.split("\n") if not x.startswith("WARNING"))
-            if (code == 0) != (out.strip() == ""):
+            if not display and (code == 0) != (out.strip() == ""):
                 viol.append((size(lj) + size(rj), "exit-status:output", "yaml-diff exits %s but printed %d characters" % (
                     code, len(out.strip())), case))
-            if code != mo["exit"]:
-                disag.append((size(lj) + size(rj), "exit", "yaml-diff exits %s, model %s" % (code, mo["exit"]), case))
+            if not has_cfg and code != mo["exit"]:
+                disag.append((size(lj) + size(rj), "exit", "yaml-diff (%s) exits %s, model %s" % (shown, code, mo["exit"]), case))
     finally:
         shutil.rmtree(tmpd, ignore_errors=True)
     return n, skipped, per_sig(viol), per_sig(disag)
@@ -805,6 +1368,8 @@ def _job(job):
         return ("diff", run_cases(payload))
     if kind_ == "sync":
         return ("sync", sync_cases(payload))
+    if kind_ == "rules":
+        return ("diff", rule_cases(payload))
     return ("cli", cli_cases(payload))
 
 
@@ -875,7 +1440,24 @@ def build_jobs(chk, scale=1):
         a, b, tag = random_pair(rng)
         x, h = rng.choice(MODES)
         cl.append((a, b, x, h, "cli"))
-    jobs += [("cli", c) for c in core.chunked(cl, 16)]
+    # the same command under every output-selection option (what is displayed must not change the exit status);
+    # own random stream, so that the cases above are those of earlier versions of this check
+    rng2 = random.Random(chk.seed * 7 + 3)
+    for i in range((480 if tier == "quick" else 4000) * scale):
+        display = DISPLAY[i % len(DISPLAY)]
+        if i % 5 == 4:
+            c = rand_rule_case(rng2)
+            cl.append((c["l"], c["r"], c["arr"], c["aoh"], "cli", {"display": display, "rules": c["rules"], "keys": c["keys"]}))
+        else:
+            a, b, tag = random_pair(rng2)
+            x, h = rng2.choice(MODES)
+            cl.append((a, b, x, h, "cli", {"display": display}))
+    jobs += [("cli", c) for c in core.chunked(cl, 32)]
+    # per-path [rules] / [keys] through a real INI file
+    rl = rule_corpus_cases() + [rand_rule_case(rng2) for _ in range((6000 if tier == "quick" else 80000) * scale)]
+    rng3 = random.Random(chk.seed * 11 + 5)
+    rl += rule_model_corpus() + [rand_rule_case_model(rng3) for _ in range((3000 if tier == "quick" else 40000) * scale)]
+    jobs += [("rules", c) for c in core.chunked(rl, 32)]
     return jobs
 
 
@@ -928,7 +1510,10 @@ def run(chk: core.Check):
         if "sync" in c:
             res = [("sync", sync_cases([(c["xs"], c["ys"])]))]
         elif c.get("cli"):
-            res = [("cli", cli_cases([(c["l"], c["r"], c["arr"], c["aoh"], "replay")]))]
+            extra = {k: c[k] for k in ("display", "rules", "keys") if k in c}
+            res = [("cli", cli_cases([(c["l"], c["r"], c["arr"], c["aoh"], "replay", extra)]))]
+        elif "rules" in c or "keys" in c:
+            res = [("diff", rule_cases([c]))]
         else:
             print("replay:", json.dumps({"case": {k: c[k] for k in ("l", "r", "arr", "aoh")},
                                          "impl": impl_report(c["l"], c["r"], c["arr"], c["aoh"]),
@@ -951,7 +1536,7 @@ def widen(chk: core.Check):
     saved = chk.seed
     chk.seed = chk2_seed
     try:
-        jobs = [j for j in build_jobs(chk, scale=10) if j[0] == "diff"]
+        jobs = [j for j in build_jobs(chk, scale=10) if j[0] in ("diff", "rules")]
     finally:
         chk.seed = saved
     chk._c06_v, chk._c06_d = [], []
